@@ -130,12 +130,29 @@ func Local(thorough bool) []core.LocalScenario {
 				sc := base
 				sc.Jobs = []core.JobResources{localRequests[a], localRequests[b]}
 				out = append(out, sc)
+				// one of the jobs is killed while it waits in line
+				if a < 3 && b < 3 {
+					for k := 0; k < 2; k++ {
+						sk := sc
+						sk.Killed = make([]bool, 2)
+						sk.Killed[k] = true
+						out = append(out, sk)
+					}
+				}
 				// triples over the first nine shapes only (the fractional
 				// memory shapes are covered in pairs)
 				for c := b; c < n && c < 9 && a < 9 && b < 9; c++ {
 					sc3 := base
 					sc3.Jobs = []core.JobResources{localRequests[a], localRequests[b], localRequests[c]}
 					out = append(out, sc3)
+					if a < 3 && b < 3 && c < 3 {
+						for k := 0; k < 3; k++ {
+							sk := sc3
+							sk.Killed = make([]bool, 3)
+							sk.Killed[k] = true
+							out = append(out, sk)
+						}
+					}
 				}
 			}
 		}
